@@ -397,9 +397,13 @@ impl World for SHandle {
     }
     fn after_step(&mut self, info: &SimInfo) -> Option<Violation> {
         with_s(|w| {
-            if let Decision::Run(a) = info.last {
-                // destructor / closure must never run on a client: checked where they log
-                let _ = a;
+            if let (Decision::Run(a), Some(engine::Yield::LockBusy(site))) = (info.last, info.last_yield) {
+                // a client (async) thread had to wait for the wrapper's mutex: blocking work on
+                // the thread that awaited or dropped the wrapper
+                if a < w.n_clients {
+                    let n = name(w, a);
+                    w.violate("blocking_on_async_thread", format!("{n} blocked on the wrapper mutex at {site} while a closure was using the value"));
+                }
             }
             w.pending_violation.take()
         })
@@ -544,7 +548,7 @@ pub fn run_sscenario(sc: &SScenario, replay: Option<Vec<Decision>>, trace: bool)
 }
 
 fn final_checks(w: &mut SWorld) -> Option<Violation> {
-    for (id, v) in w.vals.iter().enumerate() {
+    for (_id, v) in w.vals.iter().enumerate() {
         if v.created_on.is_none() {
             continue; // creation cancelled before the closure ran / failed
         }
